@@ -52,11 +52,19 @@ Print Assumptions C05_read_update.
 
 (* the list of bounds: each group is read by the class its stored type names, so any list -- in particular one whose first
    entry is a nautilus bound because the unit-cube shell was removed as empty -- is read back entry by entry *)
-Require Import NV.Codec2 NV.Codec2Proofs NV.BoundList.
+Require Import NV.Codec2 NV.Codec2Proofs NV.BoundList NV.ResumeChain.
 Theorem C05_bounds_read : forall any_cube all_cube alen tnat nlayers l, Forall (wf_sbound any_cube all_cube alen tnat nlayers) l ->
   r_bounds any_cube all_cube alen tnat nlayers (map w_sbound l) = Some (map persisted_sbound l).
 Proof. exact r_w_bounds. Qed.
 Print Assumptions C05_bounds_read.
+(* the whole resume: the file of a state whose bound groups are the written forms of a list of bounds is read back as that state, and
+   its bound groups as that list (with the non-persisted caches dropped) *)
+Theorem C05_resume_chain : forall any_cube all_cube alen tnat nlayers s dflt l,
+  wf_file s -> 0 < length (sf_points s) -> sf_bounds s = map w_sbound l -> Forall (wf_sbound any_cube all_cube alen tnat nlayers) l ->
+  exists s', read_file (sf_static s) (length (sf_points s)) dflt (write_file s) = Some s' /\ s' = s /\
+             r_bounds any_cube all_cube alen tnat nlayers (sf_bounds s') = Some (map persisted_sbound l).
+Proof. exact resume_chain. Qed.
+Print Assumptions C05_resume_chain.
 (* regression witness: the reader as found (position decides the class) turns a nautilus bound in first position into the unit cube *)
 Theorem C05_bounds_read_asis_refuted : forall any_cube all_cube alen tnat nlayers b,
   exists c, r_sbound_asis any_cube all_cube alen tnat nlayers 0 (w_sbound (SNaut b)) = Some (SCube c).
